@@ -245,7 +245,15 @@ def are_d_separated(
 
     # Filter to ancestors
     keep = graph.ancestors_inclusive(named)
-    evidence_graph = graph.subgraph(keep).moralize().disorient()
+    ancestral_graph = graph.subgraph(keep)
+    evidence_graph = ancestral_graph.moralize().disorient()
+    # A bidirected edge stands for a latent common cause, so all nodes of a district are colliders
+    # with respect to each other: marry everything that is collider-connected through the district,
+    # i.e., the district's nodes and their parents (this yields the augmented graph used for m-separation)
+    for district in ancestral_graph.districts():
+        if len(district) > 1:
+            collider_connected = set(district) | ancestral_graph.get_markov_pillow(district)
+            evidence_graph.add_edges_from(combinations(collider_connected, 2))
 
     keep = set(evidence_graph.nodes) - set(conditions)
     evidence_graph = evidence_graph.subgraph(keep)
